@@ -7,13 +7,15 @@ import "verif/vx"
 func init() {
 	add := vx.AppendRule
 	add("C01", " Also: the decoding calls with decode options (all / each alone; DecodeChained with all) over the header space with every cut, the corpus with cuts, developer-field definitions and record-header words; (h) headers that lie about the data size: every declared size from 0 to past the end on streams with a 200-byte array, 40-byte strings and 100 bytes of developer data, followed by the rest of the bytes / a right CRC and another file / nothing, under whole-buffer, 1-, 3- and 17-byte reads.")
+	add("C01", " (i) a local timestamp at every whole-second distance between -15 h and +15 h from its UTC reference, both byte orders.")
+	add("C12", " Zone-offset sweep: a local timestamp at every whole-second distance between -15 h and +15 h from its UTC reference (108 001 offsets, both byte orders) must read the stored wall clock in a zone that far from UTC.")
 	add("C04", " Also: verdicts of Decode, CheckIntegrity and the header-only check on 7 valid files and single-bit corruptions at 40 positions each under whole-buffer, 1-, 7-, 100-, 1023-, 1024-, 4096-byte and halving readers; single- and double-bit bursts once more with all decode options.")
 	add("C05", " Also: every third File carries stale non-zero Header.CRC / DataSize / CRC before the call; one File object encoded, grown, encoded, shrunk, encoded; 7 writer kinds (plain copying writer, bufio 16 / 65536, os.File, io.Pipe, io.MultiWriter, a writer with optional interfaces) must receive the bytes *bytes.Buffer receives; every ordered triple of 4 string values per string field.")
 	add("C06", " Also: local timestamps 18 zone offsets away from a UTC reference in the same or an earlier message (not only whole minutes); several local timestamps in one real daylight-saving zone (Europe/Oslo, all ordered pairs of 5 instants around the 2021 transitions; skipped with a note if the zone database is absent).")
-	add("C07", " Also in the pool: mix-family words (length <=2 quick / <=3 thorough), files in which every member holds fully populated messages, sparse-after-rich slices, and string sequences (all ordered pairs of 6 values incl. multi-byte runes, longer before shorter) for every string field of a slice-hosted message.")
+	add("C07", " Also in the pool: mix-family words (length <=2 quick / <=3 thorough), files in which every member holds fully populated messages, sparse-after-rich slices, and string sequences (all ordered pairs of 6 values incl. multi-byte runes, longer before shorter) for every string field of a slice-hosted message; a minimal stream for each of the 256 file_id.type values.")
 	add("C10", " Reader kinds: 9 streams (+ sentinel file) x 7 calls x {bytes.Reader, bytes.Buffer, strings.Reader, bufio 16/4096/65536, os.File, io.LimitedReader, io.MultiReader, io.Pipe, iotest.OneByte/Half/DataErr readers, io.SectionReader, io.TeeReader}: same result as a plain reader and, where the reader can tell, exactly the frame consumed. file_id shapes: every file_id field x every compat definition x both byte orders x boundary payloads x 3 layouts: DecodeHeaderAndFileID, Decode and DecodeChained report the same header and file_id.")
 	add("C11", " The decoding calls are made bare and with decode options; streams whose trailing CRC has a zero high byte, a zero low byte or is 0x0000 (so that substituted stale/zero bytes would pass).")
 	add("C15", " The message types File itself holds (file_id, file_creator, timestamp_correlation ...) must be registered known messages.")
 	add("C17", " Decoded-value family also with each boundary value as the first and only record of a fresh decode.")
-	add("C19", " The -sdk flag with zip inputs: a neutrally named zip plus -sdk (same output as the .xlsx), and a zip named for one version plus -sdk naming another (the flag overrides).")
+	add("C19", " The -sdk flag with zip inputs: a neutrally named zip plus -sdk (same output as the .xlsx), and a zip named for one version plus -sdk naming another (the flag overrides); the output directory also given as a relative path (gen, src/fit, .) from another working directory.")
 }
